@@ -88,14 +88,14 @@ class Engine:
     LEVEL = "model_checking"
 
     def run(self, ctx):
-        nprog = 15 if ctx.tier == "quick" else 300
+        nprog = 15 if ctx.tier == "quick" else 100
         ctx.rule("optimiser traces of generated C programs (every single pass, optimize() levels with a snapshot after "
                  "every pass, random pass sequences of length 2-6); every function of every snapshot that differs from "
                  "its predecessor is judged by IRWF.tla (Terminators, AllReachable, DefDominatesUse with path-based "
                  "dominance, PhiComplete, TypesAgree, NoInternalError); distinct = distinct (trace, pass step, function)")
         ctx.assume("the IR projection (harness/project_ir.py) reports the module faithfully")
         levels = ("2",) if ctx.tier == "quick" else ("1", "2", "s")
-        corpus = c02.build_traces(ctx, nprog, levels=levels, seqs=2 if ctx.tier == "quick" else 5,
+        corpus = c02.build_traces(ctx, nprog, levels=levels, seqs=2 if ctx.tier == "quick" else 3,
                                   npat=500 if ctx.tier == "quick" else 100000)
         recs = wf_records(ctx, corpus)
         for r in recs:
